@@ -522,7 +522,7 @@ func (r *runner) installHooks() {
 
 // info emits an "i" line with the published statistics, the live freelist state and the file length.
 func (r *runner) info(what string) {
-	if !r.ioLog || r.db == nil {
+	if (!r.ioLog && r.imgMode != "commit") || r.db == nil {
 		return
 	}
 	st := r.db.Stats()
